@@ -158,6 +158,9 @@ UNKNOWN_SERDE = [
     'with = "module"', 'serialize_with = "f"', 'deserialize_with = "g"', "borrow", 'getter = "g"', 'from = "Other"',
     'try_from = "Other"', 'into = "Other"', 'remote = "Other"', 'expecting = "text"', 'crate = "serde"', "deny_unknown_fields",
     "variant_identifier", "field_identifier", 'rename_all(serialize = "camelCase")',
+    # long values outside of ASCII (what the warning about an unsupported key prints)
+    'expecting = "' + "\u00e4" * 60 + '"', 'expecting = "x' + "\u00e4" * 60 + '"', 'alias = "' + "\u65e5\u672c\u8a9e" * 30 + '"',
+    'alias = "ab' + "\u65e5\u672c\u8a9e" * 30 + '"', 'alias = "a' + "\u65e5\u672c\u8a9e" * 30 + '"',
 ]
 
 
